@@ -613,8 +613,13 @@ impl<'a> Searcher<'a> {
 
         // Prevents infinite loops and duplicates when following symlinks: every real directory
         // is traversed once, whichever path leads to it first
-        if self.current_follow_symlinks && !self.visited_dirs.insert(PathBuf::from(&canonical_path)) {
-            return Ok(());
+        if self.current_follow_symlinks {
+            // keyed by the real path itself: its text form is the same for names that differ only in
+            // bytes that are not valid UTF-8
+            let real_path = fs::canonicalize(dir).unwrap_or_else(|_| PathBuf::from(&canonical_path));
+            if !self.visited_dirs.insert(real_path) {
+                return Ok(());
+            }
         }
 
         let canonical_depth = crate::util::calc_depth(&canonical_path);
